@@ -10,7 +10,7 @@ VARIABLE p       \* the chosen value of every variation point
 
 Slots == [leafPortsK : {2, 1, 3, 0}, leaf2Inherit : {"Leaf", "", "Nope", "Leaf2"}, boxArg : {"Leaf2", "Leaf", "Other", "Box", "Nope"},
           boxArgsN : {1, 0, 2}, midLsK : {2, 1, 0, Atom}, nIdx : {1, 0, 2}, connGate : {"port", "nogate"}, connSub : {"m", "nosub"},
-          link : {"L2", "", "L9"}, entry : {"Main", "Nope", "Mid"}, dupGen : {FALSE, TRUE}, selfConn : {FALSE, TRUE},
+          link : {"L2", "", "L9", "L3"}, entry : {"Main", "Nope", "Mid"}, dupGen : {FALSE, TRUE}, selfConn : {FALSE, TRUE},
           nK : {2, 3, 0}, sideIdx : {0, 1, 2, Atom}, boxInArgs : {0, 1}]
 Base == [leafPortsK |-> 2, leaf2Inherit |-> "Leaf", boxArg |-> "Leaf2", boxArgsN |-> 1, midLsK |-> 2, nIdx |-> 1, connGate |-> "port",
          connSub |-> "m", link |-> "L2", entry |-> "Main", dupGen |-> FALSE, selfConn |-> FALSE, nK |-> 2, sideIdx |-> 0, boxInArgs |-> 0]
@@ -18,14 +18,15 @@ Changed(q) == Cardinality({f \in DOMAIN Base : q[f] # Base[f]})
 
 DefOf(q) ==
   [entry |-> q.entry,
-   links |-> {"L1", "L2"},
+   links |-> {"L1", "L2", "L3"},
    mods |-> [
      Leaf  |-> Mod(<<>>, "", <<F("port", Atom), F("ports", q.leafPortsK)>>, <<>>, <<>>),
      Leaf2 |-> Mod(<<>>, q.leaf2Inherit, <<F("extra", Atom)>>, <<>>, <<>>),
      Other |-> Mod(<<>>, "", <<F("zzz", Atom)>>, <<>>, <<>>),
      Box   |-> Mod(IF q.dupGen THEN <<Gen("x", "Leaf"), Gen("x", "Leaf")>> ELSE <<Gen("x", "Leaf")>>, "",
-                   <<F("up", Atom)>>, <<Sub("in", Atom, "x", IF q.boxInArgs = 1 THEN <<"Leaf">> ELSE <<>>)>>,
-                   <<Con(<<F("up", Atom)>>, <<F("in", Atom), F("port", Atom)>>, "")>>),
+                   <<F("up", Atom)>>, <<Sub("in", Atom, "x", IF q.boxInArgs = 1 THEN <<"Leaf">> ELSE <<>>), Sub("in2", 2, "x", <<>>)>>,
+                   <<Con(<<F("up", Atom)>>, <<F("in", Atom), F("port", Atom)>>, ""),
+                     Con(<<F("in2", 0), F("port", Atom)>>, <<F("in2", 1), F("port", Atom)>>, "L3")>>),
      Mid   |-> Mod(<<>>, "", <<F("side", 2)>>,
                    <<Sub("l", Atom, "Leaf", <<>>), Sub("ls", q.midLsK, "Leaf", <<>>)>>,
                    <<Con(<<F("l", Atom), F("ports", Atom)>>, <<F("ls", Atom), F("port", Atom)>>, "L1"),
